@@ -40,7 +40,7 @@ REQUIRED_THEOREMS = ["queue_abs_invariant", "insert_commutes", "pop_commutes", "
                      "m_never_sent_again", "m_pdu_and_timeout_fixed", "m_giveup_after_all_retransmissions",
                      "m_at_most_max_retransmissions", "sleep_returned_wait_ok", "punctual_of_clock",
                      "pdu_and_timeout_never_modified", "pdu_and_timeout_never_modified_step", "sim_gate_order_witness",
-                     "m_transmissions_exactly", "m_giveup_exactly_max",
+                     "m_transmissions_exactly", "m_giveup_exactly_max", "m_wait_exact_and_positive",
                      "m_refines_timer_partial", "m_refines_timer_from_partial", "m_schedule_via_timer_partial",
                      "m_single_outcome_via_timer_partial"]
 RULE = ("scenario lines for harness/msg.c (one real client context, 1-3 UDP sessions sharing the send queue, virtual clock, "
